@@ -274,9 +274,9 @@ pub fn run(tier: Tier, seed: u64) -> i32 {
     let mut rep = Report::new("C08", tier, seed);
     rep.rule = "function level: Anchor calculate_liquidity_token_deltas and Pinocchio pino_calculate_liquidity_token_deltas (position bytes written by the harness's own encoder) on generated (tick_current, sqrt_price, range, +-L) incl. price exactly on a bound and the shifted-tick state, all spacings: Ok results must equal exact ceil (deposit) / floor (withdraw) amounts, A only below, B only above, both implementations equal, deposit-then-withdraw loses 0..1 per token; estimate_max_liquidity_from_token_amounts: cost(L) fits both maxima and cost(L+1) does not. instruction level (history workload, plain pools): balance deltas of every increase/decrease/by-amounts equal the exact amounts, by-amounts liquidity is maximal, token_max/token_min probes (x-1,x,x+1) on clones. distinct = (kind, price class, sign, liquidity magnitude, spacing)".into();
     rep.assumptions = vec!["tick prices are the program's own sqrt_price_from_tick_index (decided by C09)".into(), "errors are unconstrained except that both implementations must agree".into()];
-    let n = tier.pick(3_000_000, 300_000_000);
+    let n = tier.pick(12_000_000, 300_000_000);
     let mut acc = function_level(seed, n);
-    let per_shard = tier.pick(12, 1200);
+    let per_shard = tier.pick(48, 1200);
     let acc2 = run_histories(
         seed ^ 0x88,
         per_shard,
